@@ -375,5 +375,39 @@ func builtinPrograms() []*Program {
 			}, "\n"),
 		},
 	})
+
+	// 6. ambiguous short names: two imported packages share the version-less alias ("bar"), both
+	// export Thing, and a reference goes through the alias. Legal; resolved the same way every time.
+	out = append(out, &Program{
+		Name:     "builtin/alias_clash",
+		Packages: []string{"baz.bar.v1", "foo.bar.v1", "local.v1"},
+		Files: map[string]string{
+			"foo/bar/v1/a.j5s": j5s("package foo.bar.v1", "", "object Thing {", "  field f1 string", "}", "", "enum Sort {", "  option UP", "  option DOWN", "}"),
+			"baz/bar/v1/a.j5s": j5s("package baz.bar.v1", "", "object Thing {", "  field f2 string", "  field f3 integer:INT32", "}", "", "enum Sort {", "  option LEFT", "  option RIGHT", "  option MIDDLE", "}"),
+			"local/v1/foo.j5s": j5s(
+				"package local.v1",
+				"import foo.bar.v1",
+				"import baz.bar.v1",
+				"",
+				"object Foo {",
+				"  field short object:bar.Thing",
+				"  field sort enum:bar.Sort",
+				"  field one object:foo.bar.v1.Thing",
+				"  field two object:baz.bar.v1.Thing",
+				"}",
+			),
+			"local/v1/zoo.j5s": j5s(
+				"package local.v1",
+				"import baz.bar.v1",
+				"import foo.bar.v1",
+				"",
+				"object Zoo {",
+				"  field short object:bar.Thing",
+				"  field things array:object:bar.Thing",
+				"  field foo object:Foo",
+				"}",
+			),
+		},
+	})
 	return out
 }
